@@ -179,6 +179,14 @@ def who_may_announce(ctx):
             ok = ok and bool(gs) and (q.guards_imply(gs, target) or any(
                 pol and isinstance(e, ast.Name) and q.flag_true_implies(cf, e.id, target) for e, pol in gs))
             detail = 'cancel may announce done only if the transfer had not started (otherwise the final task / error path announces after the work)'
+            # check-then-act: the status test deciding the announcement is made under the state lock,
+            # in the very lock region that stores 'cancelled'
+            from .c17 import _lock_region
+            tests = [n for n in own_nodes(cf.node) if isinstance(n, ast.Compare) and "'not-started'" in norm(n) and '_status' in norm(n)]
+            stores = [n for n in own_nodes(cf.node) if isinstance(n, ast.Assign) and any(dotted(t) == 'self._status' for t in n.targets)]
+            atomic = bool(tests) and bool(stores) and all('self._lock' in q.locks_held(t) and _lock_region(t) is _lock_region(stores[0]) for t in tests)
+            ctx.ob(cf, "the `_status == 'not-started'` test is made inside the lock region that stores 'cancelled'", atomic,
+                   'a status read before taking the lock can be stale: the submission task may have started (and will announce itself) - done is announced twice / before the work returned')
         elif cf.qualname == 'tasks.SubmissionTask._main':
             ok = ok and q.in_handler(c) is not None
             detail = 'the submission task announces done only from its error handler'
